@@ -70,6 +70,7 @@ var (
 	pPayCb   = mk(0x22)
 	pClear   = mk(0x23)
 	pSdEmpty = mk(0x24) // self-destructing contract without balance of its own
+	pCrColl  = mk(0x25) // CREATE with value whose target address is already occupied (collision)
 )
 
 // ------------------------------------------------------------------ issuance schedule, from the property text
@@ -177,7 +178,7 @@ func checkUniverse(c *vh.Ctx, addrs []common.Address, u Universe, where string) 
 	}
 	for _, a := range addrs {
 		if !in[a] {
-			c.Fatal("harness universe incomplete: %s (%s)", a.Hex(), where)
+			c.Violate("account-outside-universe/"+a.Hex()+"/"+where, "the state holds an account that nothing in this case can have created (every address the case can reach is in the compared universe)", map[string]interface{}{"where": where})
 		}
 	}
 }
@@ -201,7 +202,7 @@ func randBalance(r *vh.RNG) *big.Int {
 	}
 }
 
-func runRewards(c *vh.Ctx, m *vh.Model) {
+func runRewards(c *vh.Ctx, m *vh.Model, directed int) {
 	r := c.Rng
 	cfgs := []Cfg{Builtin(0), Builtin(1), Builtin(2), Builtin(3), Builtin(4), Builtin(5)}
 	cfgs = append(cfgs, customs()...)
@@ -286,6 +287,40 @@ func runRewards(c *vh.Ctx, m *vh.Model) {
 		}
 		us = append(us, u)
 	}
+	// uncle above the block (accumulateRewards has no guard of its own; VerifyUncles rejects such blocks)
+	if directed < 0 && len(us) > 0 && r.Intn(25) == 0 {
+		d := -(1 + r.Intn(3))
+		us[0].num, us[0].depth = Sub(num, big.NewInt(int64(d))), d
+		c.Count("rewards:uncle-above-block")
+	}
+	// directed edge cases, run on every seed
+	if directed >= 0 {
+		if num.Cmp(big.NewInt(42000000)) >= 0 || num.Cmp(big.NewInt(10)) < 0 {
+			num = big.NewInt(100)
+			hclass = "100"
+		}
+		un := func(d int, a common.Address) uncleSpec { return uncleSpec{num: Sub(num, big.NewInt(int64(d))), depth: d, cb: a} }
+		emptyExisting := mk(0x47)
+		switch directed % 7 {
+		case 0:
+			us, rel = []uncleSpec{un(7, freshPool[1])}, []string{"fresh"}
+		case 1:
+			us, rel = []uncleSpec{un(8, freshPool[1])}, []string{"fresh"}
+		case 2:
+			us, rel = []uncleSpec{un(-2, freshPool[1])}, []string{"fresh"}
+		case 3:
+			us, rel = []uncleSpec{un(1, freshPool[2]), un(2, freshPool[2])}, []string{"fresh", "same-as-other-uncle"}
+		case 4:
+			us, rel = []uncleSpec{un(3, cb)}, []string{"miner"}
+		case 5:
+			world = append(world, Acct{Addr: emptyExisting})
+			us, rel = []uncleSpec{un(8, emptyExisting)}, []string{"existing-empty"}
+		case 6:
+			us, rel = []uncleSpec{un(7, cb), un(8, cb)}, []string{"miner", "miner"}
+		}
+		nu = len(us)
+		c.Count(fmt.Sprintf("rewards:directed-%d", directed%7))
+	}
 	u := Universe{cb}
 	for _, a := range world {
 		u = append(u, a.Addr)
@@ -325,7 +360,7 @@ func runRewards(c *vh.Ctx, m *vh.Model) {
 	after, addrs := Supply(sdb1, eip158)
 	checkUniverse(c, addrs, u, "rewards")
 	issuance := issuanceSpec(num, uncleNums(us))
-	postDump := DumpState(sdb1, u)
+	postDump := DumpStateLoose(sdb1, u)
 	observed := "supply_before=" + HexBig(before) + " supply_after=" + HexBig(after) + " issuance=" + HexBig(issuance) + " state=" + postDump
 	ans := m.Ask(req)
 	c.Correspond("aquahash.accumulateRewards~accumulate_rewards", req, observed, ans)
@@ -341,8 +376,20 @@ func runRewards(c *vh.Ctx, m *vh.Model) {
 	}
 	after2, addrs2 := Supply(sdb2, eip158)
 	checkUniverse(c, addrs2, u, "finalize")
-	postDump2 := DumpState(sdb2, u)
-	c.Correspond("aquahash.Finalize~accumulate_rewards", req, "supply_before="+HexBig(before)+" supply_after="+HexBig(after2)+" issuance="+HexBig(issuance)+" state="+postDump2, ans)
+	// exact comparison including account existence: Finalize ends with IntermediateRoot(IsEIP158)
+	sdb2.IntermediateRoot(eip158)
+	postExact := DumpState(sdb2, u)
+	reqE := fmt.Sprintf("rewards_e %s %s %s %s %s", cfg.Token, numTok, HexAddr(cb), unclesTok(us, hexNum), preDump)
+	ansE := m.Ask(reqE)
+	obsE := "supply_before=" + HexBig(before) + " supply_after=" + HexBig(after2) + " issuance=" + HexBig(issuance) + " state=" + postExact
+	c.Correspond("aquahash.Finalize~accumulate_rewards_e", reqE, obsE, ansE)
+	if obsE == ansE {
+		want, err := ExpectedRoot(sdb2, postExact)
+		if got := sdb2.IntermediateRoot(eip158); err != nil || got != want {
+			c.Violate("state-root-differs-from-expected-content/rewards", fmt.Sprintf("real root %x, root of the expected content %x (%v)", got, want, err), replay)
+		}
+	}
+	postDump2 := DumpStateLoose(sdb2, u)
 	if postDump2 != postDump || after2.Cmp(after) != 0 {
 		c.Violate("finalize-differs-from-accumulate-rewards/"+num.String()+"/"+depthsTok(us), "Engine.Finalize and accumulateRewards leave different states",
 			map[string]interface{}{"request": req, "hook": postDump, "finalize": postDump2})
@@ -399,6 +446,7 @@ func progs() []prog {
 		{name: "pay-coinbase", addr: pPayCb, code: payTo(COINBASE), bal: 10},
 		{name: "clear", addr: pClear, code: A().SStore(0, 0).SStore(1, 0).SStore(2, 1).Op(STOP).B, st: map[byte]byte{0: 1, 1: 1}},
 		{name: "sd-empty", addr: pSdEmpty, code: A().PushAddr(fresh2).Op(SELFDESTRUCT).B},
+		{name: "create-collide", addr: pCrColl, code: A().Create(2, A().SStore(0, 1).Op(STOP).B).Op(POP).Op(STOP).B, bal: 10},
 	}
 }
 
@@ -441,6 +489,7 @@ func txKinds() []txKind {
 		{name: "nested-middle-fails-after-inner-kept-value", mk: to(pNestD)},
 		{name: "inner-create-value-fails", mk: to(pCrFail)},
 		{name: "inner-create-value-ok", mk: to(pCrOK)},
+		{name: "inner-create-value-collision", mk: to(pCrColl)},
 		{name: "selfdestruct-self", mk: to(pSdSelf), sd: true},
 		{name: "selfdestruct-fresh", mk: to(pSdFresh), sd: true},
 		{name: "selfdestruct-existing", mk: to(pSdSink), sd: true},
@@ -489,7 +538,7 @@ func baseUniverse(aStart, count uint64) Universe {
 		u = append(u, p.addr)
 	}
 	for n := uint64(0); n < count; n++ {
-		u = append(u, crypto.CreateAddress(addrA, aStart+n), crypto.CreateAddress(addrB, n), crypto.CreateAddress(pCrFail, n), crypto.CreateAddress(pCrOK, n))
+		u = append(u, crypto.CreateAddress(addrA, aStart+n), crypto.CreateAddress(addrB, n), crypto.CreateAddress(pCrFail, n), crypto.CreateAddress(pCrOK, n), crypto.CreateAddress(pCrColl, n))
 	}
 	return u
 }
@@ -525,6 +574,8 @@ func blockChoices() []cfgChoice {
 }
 
 type blockCase struct {
+	occupiedB0    bool
+	emptyExisting int
 	cc       cfgChoice
 	world    []Acct
 	u        Universe
@@ -559,6 +610,21 @@ func genBlock(c *vh.Ctx) *blockCase {
 		{Addr: sink, Bal: big.NewInt(1000)}, {Addr: uExist, Bal: big.NewInt(77)}}
 	for _, p := range progs() {
 		b.world = append(b.world, Acct{Addr: p.addr, Bal: big.NewInt(p.bal), Code: p.code, Storage: p.st})
+	}
+	// occupied CREATE targets: the inner CREATE of pCrColl always collides; sender B's first creation sometimes does
+	b.world = append(b.world, Acct{Addr: crypto.CreateAddress(pCrColl, 0), Nonce: 1, Bal: big.NewInt(4)}, Acct{Addr: crypto.CreateAddress(pCrColl, 1), Nonce: 1})
+	if r.Intn(3) == 0 {
+		b.world = append(b.world, Acct{Addr: crypto.CreateAddress(addrB, 0), Nonce: 2, Bal: big.NewInt(9)})
+		b.occupiedB0 = true
+	}
+	// accounts that exist but are empty (pre-EIP-158 left-overs): an uncle miner, the recipient of plain transfers, the coinbase
+	if r.Intn(3) == 0 {
+		for i, a := range []common.Address{uFresh1, fresh, cbEOA, fresh2} {
+			if r.Intn(2) == 0 {
+				b.world = append(b.world, Acct{Addr: a})
+				b.emptyExisting |= 1 << uint(i)
+			}
+		}
 	}
 	// the listed genesis allocation: present at the HF4 height, and sometimes next to it (where it must survive)
 	near := false
@@ -839,6 +905,21 @@ func runBlock(c *vh.Ctx, m *vh.Model, b *blockCase) {
 	class := fmt.Sprintf("block|%s|uncles=%d|selfdestruct=%s|%s", b.cc.name, len(b.uncles), f[sawSD], outcome)
 	c.Eval(class, class+"|"+strings.Join(b.kinds, ",")+"|"+depthsTok(b.uncles)+"|"+b.cbclass)
 	c.Correspond("StateProcessor.Process~process", req, observed, ans)
+	if observed == ans && strings.HasPrefix(observed, "ok ") {
+		// the real state root against a fresh state built from the expected content
+		i := strings.Index(ans, " state=")
+		want, err := ExpectedRoot(sdbB, ans[i+7:])
+		if got := sdbB.IntermediateRoot(eip158); err != nil || got != want {
+			c.Violate("state-root-differs-from-expected-content/block", fmt.Sprintf("real root %x, root of the expected content %x (%v)", got, want, err), info(nil))
+		}
+		c.Count("blocks:state-root-checked")
+	}
+	if b.occupiedB0 {
+		c.Count("blocks:sender-B-first-CREATE-address-occupied")
+	}
+	if b.emptyExisting != 0 {
+		c.Count("blocks:pre-state-has-empty-existing-accounts")
+	}
 	c.Count("blocks:" + b.cbclass)
 	if sawSD {
 		c.Count("blocks:with-selfdestruct")
@@ -1048,9 +1129,6 @@ func runChain(c *vh.Ctx, idx int) {
 func main() {
 	parts := flag.String("parts", "123", "which parts to run (1 rewards, 2 blocks, 3 generated chains); for debugging a single part")
 	c := vh.Init("C05")
-	// vh.NewRNG(seed) starts the splitmix counter at seed*gamma+const, so the streams of seeds n and n+1 are the same
-	// stream shifted by one step and the generated cases re-synchronise after a few cases; forking decorrelates the seeds.
-	c.Rng = c.Rng.Fork()
 	log.Root().SetHandler(log.DiscardHandler())
 	m := c.StartModel()
 	defer m.Close()
@@ -1068,17 +1146,45 @@ func main() {
 		}
 		return 0
 	}
+	seed := c.Seed
+	one := func(part string, i int) {
+		from := len(c.Res.Violations)
+		CaseRng(c, seed, part, i)
+		switch part {
+		case "rewards":
+			runRewards(c, m, -1)
+		case "rewards-directed":
+			runRewards(c, m, i)
+		case "block":
+			runBlock(c, m, genBlock(c))
+		case "chain":
+			runChain(c, i)
+		default:
+			c.Fatal("unknown replay part %q", part)
+		}
+		TagViolations(c, from, seed, part, i)
+	}
+	if rp := LoadReplay(c); rp != nil {
+		seed = rp.Seed
+		one(rp.Part, rp.Index)
+		c.Note("replayed case seed=%d part=%s index=%d", rp.Seed, rp.Part, rp.Index)
+		c.Finish()
+		return
+	}
+	for i := 0; i < on("1", 14); i++ {
+		one("rewards-directed", i)
+	}
 	nr := on("1", c.Scale(700, 14000))
 	for i := 0; i < nr; i++ {
-		runRewards(c, m)
+		one("rewards", i)
 	}
 	nb := on("2", c.Scale(450, 9000))
 	for i := 0; i < nb; i++ {
-		runBlock(c, m, genBlock(c))
+		one("block", i)
 	}
 	nc := on("3", c.Scale(30, 600))
 	for i := 0; i < nc; i++ {
-		runChain(c, i)
+		one("chain", i)
 	}
 	c.Finish()
 }
